@@ -47,6 +47,17 @@ def run(r: Run):
     for k in range(0, 300, 1 if thorough else 3):
         cases.append(("big", Fraction(2_000_000 + 10_000 * k), 300, rng.choice([1, -2])))
         nbig += 1
+    # overflow edges: masses at which (mass/1800)^k just does / just does not overflow, for every k a ladder can reach, with
+    # ladders that end on, one past and well past that term — and around 171 terms, where the factorial overflows as well
+    # (power and factorial may leave the range of f64 at the same step: inf / inf)
+    import sys as _sys
+    for k in sorted(set(range(100, 301, 1 if thorough else 3)) | set(range(160, 185))):
+        lam_k = _sys.float_info.max ** (1.0 / k)
+        for delta in (-1e-3, 1e-9, 1e-3, 1e-2):
+            m = Fraction(1800.0 * lam_k * (1 + delta))
+            for n in sorted(set([min(300, k + 1), min(300, k + 2), 172, 300])):
+                cases.append(("big", m, n, rng.choice([1, -1, 2, -3])))
+                nbig += 1
     from . import common as _c
     for d in _c.dict_ints(1, 400):
         for m in (Fraction(750), Fraction(123456), Fraction(d)):
